@@ -128,7 +128,20 @@ func VerifBastion() {
 	rt.Assert(okSet, "C10/status-is-documented")
 	rt.Assert(body.Closed, "C10/body-closed")
 
-	allowEv, _ := rt.Find("limiter.allow", 0)
+	allowEv, consulted := rt.Find("limiter.allow", 0)
+	rt.Assert(consulted && rt.Count("limiter.allow") == 1, "C10/rate-limit-consulted-exactly-once")
+	if !consulted {
+		return
+	}
+	// the limiter is asked before anything of the request is processed
+	firstEv := rt.Events[0]
+	for _, e := range evs {
+		if e.K != "Inc" {
+			firstEv = e
+			break
+		}
+	}
+	rt.Assert(firstEv.K == "limiter.allow", "C10/rate-limit-consulted-before-processing")
 	nParse := rt.Count("Parse")
 	if allowEv.U[0] == 0 {
 		rt.Assert(status == 429 && nParse == 0 && rt.Count("Sign") == 0, "C10/over-rate-429-unprocessed")
@@ -256,7 +269,10 @@ func verifBastionReplayFacts(d *verifDeployment, malformed bool, oldSize uint64,
 	if rt.Param("replay", 1) != 1 {
 		return
 	}
-	allowEv, _ := rt.Find("limiter.allow", 0)
+	allowEv, consulted := rt.Find("limiter.allow", 0)
+	if !consulted {
+		return
+	}
 	rt.Name("b.allow", allowEv.U[0] == 1)
 	rt.Name("b.malformed", malformed)
 	rt.Name("b.status", uint64(rec.Status))
